@@ -2,17 +2,24 @@
 
 E2 enumerates small one-operation documents; E1 enumerates every choice path (bounded deviations) of the real
 ``operation.as_strategy(generation_mode=POSITIVE)``; the independent evaluator judges every produced Case.
+
+Review round 2: whole-operation work items (``kind: extra``, enumerated with their expectation in ``mc/c01_extra.py``) run the
+same exploration through ``check_extra`` / ``judge_extra`` below: several inputs per operation, several media types and forms,
+readOnly shapes, keyword combinations at their limits, the other declaration spellings and the other entry points.
 """
 
 from __future__ import annotations
 
 import copy
+import json
 from typing import Any
+from urllib.parse import unquote
 
+from mc import c01_extra
 from mc import smallscope as ss
 from mc.choicetree import Alphabet, Stats, draw_strategy, explore
 from mc.runner import Result, digest
-from oracles.jsonschema_mini import verdict
+from oracles.jsonschema_mini import Evaluator, Unknown, verdict
 from props import common
 
 ID = "C01"
@@ -21,11 +28,15 @@ RULE = (
     "work item = one-operation OpenAPI document (schema from a keyword grammar of <=K keywords x location x spec x required "
     "x generation config); for each, every choice path of the real positive strategy with <=d non-default PRNG answers over a "
     "bounded alphabet is executed; a case is non-trivial when it carries a generated value for the parameter under test; "
-    "distinct = distinct (document, generated case) pairs"
+    "distinct = distinct (document, generated case) pairs; review round 2 adds whole-operation items (mc/c01_extra.py): several "
+    "parameters per location, several media types / forms, readOnly shapes, keyword combinations at their limits, declaration "
+    "spellings (content, references, neutral keywords, security), and the other entry points / configuration routes"
 )
 BOUNDS = {
-    "quick": {"K": 2, "d": 1, "K_pattern_length": 3, "d_pattern_length": 2, "max_exec_per_tree": 400},
-    "thorough": {"K": 3, "d": 2, "K_pattern_length": 3, "d_pattern_length": 3, "max_exec_per_tree": 4000},
+    "quick": {"K": 2, "d": 1, "K_pattern_length": 3, "d_pattern_length": 2, "max_exec_per_tree": 400,
+              "whole_operation_d": 2, "engine_max_examples": 12},
+    "thorough": {"K": 3, "d": 2, "K_pattern_length": 3, "d_pattern_length": 3, "max_exec_per_tree": 4000,
+                 "whole_operation_d": 3, "engine_max_examples": 12},
 }
 BUDGET_S = {"quick": 150, "thorough": 3000}
 CHUNK = 8
@@ -33,6 +44,11 @@ ASSUMPTIONS = [
     "draws outside the stated candidate alphabets and beyond d deviations are not explored",
     "conformance is judged by /verif/oracles/jsonschema_mini.py (own code); cases it leaves undecided (e.g. 1.0 vs integer, unknown formats) are never reported",
     "non-body locations use primitives and default-style arrays only, so style decoding (C06) is not involved",
+    "entry `engine` / `pytest`: one derandomised execution each of the engine's fuzzing phase and of the test that the pytest "
+    "plugin's collector builds (schema.parametrize() mark -> get_all_operations -> create_test); pytest itself is not run; only "
+    "cases of the generate phase are judged there",
+    "a parameter declared with `content: application/json` is read as JSON text; a security parameter is demanded only when "
+    "the operation's single requirement object names it",
 ]
 
 GROUP_PATTERNS = ["^(?:ab)+$", "^(ab)*$", "^(?:[ab]0)+$", "^(?:ab|ac)+$", "(?:ab)+"]
@@ -140,6 +156,7 @@ def items(tier: str, seed: int) -> list[dict]:
             out.append({"spec": spec, "loc": "query", "required": True, "schema": {"type": "integer", "minimum": 1}, "ref": 0,
                         "cfgs": [{"allow_x00": True, "codec": "utf-8", "with_security_parameters": sec_on}], "d": BOUNDS[tier]["d"],
                         "family": "security", "security": True})
+    out += c01_extra.extra_items(tier)
     return out
 
 
@@ -209,6 +226,8 @@ def check_item(item: dict, tier: str) -> Result:
     from schemathesis.core import NOT_SET
     from schemathesis.generation import GenerationConfig, GenerationMode
 
+    if item.get("kind") == "extra":
+        return check_extra(item, tier)
     res = Result()
     doc, expect = build(item)
     spec, loc = item["spec"], item["loc"]
@@ -361,6 +380,455 @@ def judge(res: Result, item: dict, doc: dict, expect: dict, cfg: dict, case: Any
     if len(res.samples) < 3:
         res.samples.append({"schema": item["schema"], "spec": spec, "location": loc, "cfg": cfg, "choices": choices, "case": summary})
 
+# -- review round 2: whole-operation items (enumerated in mc/c01_extra.py) --------------------------------------------------
+
+EXTRA_FAMILIES = ("multi", "media", "objects", "values", "declaration", "security", "entry")
+EXTRA_MAX_EXEC = {"quick": 3000, "thorough": 20000}
+
+
+def _plain(value: Any) -> Any:
+    """JSON-able copy of generated data (``type: file`` / ``format: binary`` values are wrapper objects around bytes)."""
+    if isinstance(value, dict):
+        return {str(k): _plain(v) for k, v in value.items()}
+    if isinstance(value, (list, tuple)):
+        return [_plain(v) for v in value]
+    if isinstance(value, bytes):
+        return {"$bytes": value.hex()}
+    if isinstance(value, (str, int, float, bool)) or value is None:
+        return value
+    data = getattr(value, "data", None)
+    if isinstance(data, bytes):
+        return {"$binary": data.hex()}
+    return repr(value)
+
+
+def _media_key(media_type: Any) -> str:
+    """type/subtype in lower case, parameters dropped (RFC 7231: both are case-insensitive; parameters do not select a schema)."""
+    return str(media_type).split(";")[0].strip().lower()
+
+
+def _find(container: Any, name: str, location: str) -> tuple[bool, Any]:
+    for key in container:
+        if key == name or (location == "header" and str(key).lower() == name.lower()):
+            return True, container[key]
+    return False, None
+
+
+def _generation_config(cfg: dict) -> Any:
+    from schemathesis.generation import GenerationConfig, GenerationMode
+
+    return GenerationConfig(modes=[GenerationMode.POSITIVE], allow_x00=cfg["allow_x00"], codec=cfg["codec"],
+                            with_security_parameters=cfg.get("with_security_parameters", True))
+
+
+def _extra_strategy(item: dict, cfg: dict, schema: Any = None) -> tuple[Any, Any]:
+    """(loaded schema, real positive strategy) through the item's entry point and configuration route."""
+    from schemathesis.generation import GenerationMode
+
+    config = _generation_config(cfg)
+    how, entry = item["cfg_how"], item["entry"]
+    if schema is None:
+        schema = common.load(item["doc"])
+        if how in ("both", "stored"):
+            schema = schema.configure(generation=config)
+    kwargs: dict[str, Any] = {"generation_mode": GenerationMode.POSITIVE}
+    if how in ("both", "call"):
+        kwargs["generation_config"] = config
+    op0 = item["expect"]["ops"][0]
+    path, method = op0["path"], op0["method"]
+    if entry in ("lookup", "sequence"):
+        return schema, schema[path][method.upper()].as_strategy(**kwargs)
+    if entry in ("iter", "iter_cfg"):
+        results = schema.get_all_operations(generation_config=config) if entry == "iter_cfg" else schema.get_all_operations()
+        operations = [r.ok() for r in results]
+        operation = next(o for o in operations if o.path == path and o.method.lower() == method)
+        return schema, operation.as_strategy(**kwargs)
+    if entry == "schema":
+        return schema, schema.as_strategy(**kwargs)
+    if entry == "pathmap":
+        return schema, schema[path].as_strategy(**kwargs)
+    if entry == "by_id":
+        return schema, schema.get_operation_by_id(op0["operationId"]).as_strategy(**kwargs)
+    if entry == "by_ref":
+        pointer = "#/paths/" + path.replace("~", "~0").replace("/", "~1") + "/" + method
+        return schema, schema.get_operation_by_reference(pointer).as_strategy(**kwargs)
+    raise ValueError(entry)
+
+
+def _extra_satisfiable(doc: dict, op: dict, spec: str) -> bool | None:
+    """True only if EVERY declared input of the operation has a conforming value among the brute-force candidates."""
+    verdicts: list[bool | None] = []
+    for p in op["params"]:
+        if p["content_json"]:
+            verdicts.append(None if p["in"] == "path" else brute_force_satisfiable(doc, p["schema"], "body", spec))
+        else:
+            verdicts.append(brute_force_satisfiable(doc, p["schema"], p["in"], spec))
+    for b in op["bodies"] or []:
+        verdicts.append(brute_force_satisfiable(doc, b["schema"], "body", spec))
+    for p in (op["form"] or {}).get("params", []):
+        verdicts.append(brute_force_satisfiable(doc, p["schema"], "body", spec))
+    return True if all(v is True for v in verdicts) else None
+
+
+def _engine_cases(item: dict, cfg: dict, tier: str, res: Result) -> list:
+    from mc import engine
+
+    config = _generation_config(cfg)
+    schema = engine.load_schema(item["doc"], generation=config)
+    run = engine.run_engine(schema, engine.make_config(phases=["fuzzing"], max_examples=BOUNDS[tier]["engine_max_examples"], seed=1,
+                                                       workers=1, generation=config))
+    res.states += len(run.events)
+    res.transitions += len(run.exchanges)
+    if run.error is not None or run.of_type("NonFatalError"):
+        res.count("engine_run_with_errors")
+        return []
+    return [node.value for e in run.of_type("ScenarioFinished") for node in e.recorder.cases.values()]
+
+
+def _pytest_cases(item: dict, cfg: dict, tier: str, res: Result) -> list:
+    """What the pytest plugin's collector does with ``@schema.parametrize()``, without a pytest session."""
+    import hypothesis
+
+    from schemathesis.generation.hypothesis.builder import HypothesisTestConfig, HypothesisTestMode, create_test
+    from schemathesis.generation.meta import TestPhase
+    from schemathesis.pytest.plugin import SchemaHandleMark
+
+    schema = common.load(item["doc"]).configure(generation=_generation_config(cfg))
+    seen: list = []
+
+    @hypothesis.settings(max_examples=BOUNDS[tier]["engine_max_examples"], derandomize=True, database=None, deadline=None,
+                         suppress_health_check=list(hypothesis.HealthCheck))
+    def test_api(case: Any) -> None:
+        seen.append(case)
+
+    marked = schema.parametrize()(test_api)
+    handle = SchemaHandleMark.get(marked)
+    for result in handle.get_all_operations():
+        test = create_test(operation=result.ok(), test_func=marked,
+                           config=HypothesisTestConfig(modes=list(HypothesisTestMode), given_kwargs={}, generation=handle.generation_config))
+        test()
+        res.states += 1
+    return [c for c in seen if c.meta is not None and c.meta.phase.name == TestPhase.GENERATE]
+
+
+def check_extra(item: dict, tier: str) -> Result:
+    res = Result()
+    chars = CHARS_QUICK if tier == "quick" else CHARS_THOROUGH
+    entry = item["entry"]
+    sig_base = {"family": item["family"], "shape": item["shape"]}
+    common.reset_schemathesis_caches()
+    if entry in ("engine", "pytest"):
+        for cfg in item["cfgs"]:
+            common.reset_schemathesis_caches()
+            cases = (_engine_cases if entry == "engine" else _pytest_cases)(item, cfg, tier, res)
+            res.evaluations += 1
+            res.outcomes.add(f"{entry}:{'cases' if cases else 'no_case'}")
+            for case in cases:
+                res.traces += 1
+                res.count(f"entry_cases_{entry}")
+                judge_extra(res, item, cfg, case, [])
+        return res
+    shared_schema = None
+    for index, cfg in enumerate(item["cfgs"]):
+        if entry != "sequence":
+            common.reset_schemathesis_caches()
+        try:
+            # `sequence`: the SAME schema and operation objects are asked again, with the next configuration
+            shared_schema, strategy = _extra_strategy(item, cfg, shared_schema if entry == "sequence" else None)
+        except Exception as exc:  # noqa: BLE001
+            res.evaluations += 1
+            res.outcomes.add("construction_error")
+            if item["liveness"] and len(item["expect"]["ops"]) == 1 and _extra_satisfiable(item["doc"], item["expect"]["ops"][0], item["spec"]):
+                res.violation({**sig_base, "kind": "strategy_construction_failed_on_satisfiable_schema", "error": type(exc).__name__},
+                              {"doc": item["doc"], "error": repr(exc)[:300], "cfg": cfg, "entry": entry})
+            continue
+        stats = Stats()
+        valid = 0
+        errors: list[BaseException] = []
+        for ex in explore(draw_strategy(strategy), Alphabet(chars=chars), item["d"], max_executions=EXTRA_MAX_EXEC[tier], stats=stats):
+            res.evaluations += 1
+            if ex.status == "valid":
+                valid += 1
+                res.traces += 1
+                if entry == "sequence" and index > 0:
+                    res.count("sequence_later_config_cases")
+                judge_extra(res, item, cfg, ex.value, ex.choices)
+            elif ex.status == "error":
+                errors.append(ex.error)
+            res.outcomes.add(ex.status)
+        res.states += stats.nodes
+        res.transitions += stats.edges
+        res.count("trees_exhausted" if stats.exhausted else "trees_not_exhausted")
+        if stats.capped:
+            res.exhaustive = False
+            res.count("trees_capped")
+        if valid == 0:
+            sat = None
+            if item["liveness"] and len(item["expect"]["ops"]) == 1:
+                sat = _extra_satisfiable(item["doc"], item["expect"]["ops"][0], item["spec"])
+            if errors and sat:
+                res.violation({**sig_base, "kind": "generation_error_on_satisfiable_schema", "error": type(errors[0]).__name__},
+                              {"doc": item["doc"], "error": repr(errors[0])[:300], "cfg": cfg, "entry": entry})
+            elif stats.exhausted and sat:
+                res.violation({**sig_base, "kind": "no_positive_case_on_satisfiable_schema"},
+                              {"doc": item["doc"], "cfg": cfg, "executions": stats.executions, "entry": entry})
+            else:
+                res.count("no_valid_case_undecided")
+    return res
+
+
+def _readonly_facts(root: dict, schema: Any, value: Any, spec: str) -> dict:
+    """Is a readOnly property present in the value, and how does the schema level that owns it spell its `type`?"""
+    ev = Evaluator(root, spec=spec)
+    owners: list[str] = []
+
+    def walk(sch: Any, val: Any, depth: int) -> None:
+        if depth > 12:
+            return
+        try:
+            s = ev.resolve(sch)
+        except Unknown:
+            return
+        if not isinstance(s, dict):
+            return
+        if isinstance(val, dict):
+            props = s.get("properties", {}) if isinstance(s.get("properties", {}), dict) else {}
+            for name, sub in props.items():
+                if name not in val:
+                    continue
+                try:
+                    rs = ev.resolve(sub)
+                except Unknown:
+                    continue
+                if isinstance(rs, dict) and rs.get("readOnly") is True:
+                    t = s.get("type")
+                    owners.append("absent" if t is None else ("list" if isinstance(t, list) else str(t)))
+                else:
+                    walk(sub, val[name], depth + 1)
+            ap = s.get("additionalProperties")
+            if isinstance(ap, dict):
+                for name in val:
+                    if name not in props:
+                        walk(ap, val[name], depth + 1)
+        if isinstance(val, (list, tuple)) and isinstance(s.get("items"), dict):
+            for x in val:
+                walk(s["items"], x, depth + 1)
+        for kw in ("allOf", "anyOf", "oneOf"):
+            for sub in s.get(kw, []) if isinstance(s.get(kw), list) else []:
+                walk(sub, val, depth + 1)
+
+    walk(schema, value, 0)
+    if not owners:
+        return {}
+    return {"readonly_property_sent": True, "readonly_owner_type": sorted(set(owners))}
+
+
+def _named_values(node: Any, out: list) -> list:
+    """Every enum member / const value written anywhere in the document."""
+    if isinstance(node, dict):
+        for key, val in node.items():
+            if key == "enum" and isinstance(val, list):
+                out.extend(val)
+            elif key == "const":
+                out.append(val)
+            _named_values(val, out)
+    elif isinstance(node, list):
+        for val in node:
+            _named_values(val, out)
+    return out
+
+
+def _extra_param_verdict(doc: dict, p: dict, value: Any, spec: str) -> bool | None:
+    v = common.param_verdict(doc, p["schema"], value, p["in"], spec)
+    if not p["content_json"] or v is True or not isinstance(value, str):
+        return v
+    # `content: application/json`: the wire string is JSON text
+    texts = [value] + ([unquote(value)] if p["in"] == "path" else [])
+    for text in texts:
+        try:
+            decoded = json.loads(text)
+        except ValueError:
+            continue
+        v2 = verdict(doc, p["schema"], decoded, spec=spec)
+        if v2 is True:
+            return True
+        if v2 is None:
+            v = None
+    return v
+
+
+def judge_extra(res: Result, item: dict, cfg: dict, case: Any, choices: list[int]) -> None:
+    from schemathesis.core import NOT_SET
+    from schemathesis.generation import GenerationMode
+
+    doc, spec, entry = item["doc"], item["spec"], item["entry"]
+    summary = _plain(common.summarize_case(case))
+    base = {"family": item["family"], "shape": item["shape"]}
+    detail = {"doc": doc, "case": summary, "choices": choices, "cfg": cfg, "spec": spec, "entry": entry, "cfg_how": item["cfg_how"]}
+    res.count(f"xcases_{item['family']}")
+    res.count(f"entry_{entry}")
+    op = next((o for o in item["expect"]["ops"]
+               if o["path"] == case.operation.path and o["method"].lower() == str(case.operation.method).lower()), None)
+    if op is None:
+        res.violation({**base, "kind": "case_for_undeclared_operation"}, detail)
+        return
+    detail["operation"] = f"{op['method'].upper()} {op['path']}"
+    sec_on = cfg.get("with_security_parameters", True)
+    containers = {loc: (getattr(case, common.CONTAINER[loc]) or {}) for loc in common.LOCATIONS}
+    carries_value = False
+    # declared parameters
+    for p in op["params"]:
+        found, value = _find(containers[p["in"]], p["name"], p["in"])
+        if not found:
+            if p["required"]:
+                res.violation({**base, "kind": "required_parameter_missing", "location": p["in"]}, detail | {"parameter": p["name"]})
+            continue
+        carries_value = True
+        if p["content_json"]:
+            res.count("content_json_values_judged")
+        v = _extra_param_verdict(doc, p, value, spec)
+        if v is False:
+            kws = common.failing_keywords(doc, p["schema"], value, p["in"], spec)
+            res.violation({**base, "kind": "positive_value_violates_schema", "location": p["in"], "keywords": kws,
+                           **common.pattern_facts(p["schema"])}, detail | {"parameter": p["name"], "schema": p["schema"]})
+        elif v is None:
+            res.count("undecided_values")
+    # names nobody declared; security parameters
+    for location in common.LOCATIONS:
+        def same(a: str, b: str) -> bool:
+            return a == b or (location == "header" and a.lower() == b.lower())
+
+        declared = [p["name"] for p in op["params"] if p["in"] == location]
+        security = [s for s in op["security"] if s["in"] == location]
+        allowed = declared + ([s["name"] for s in security] if sec_on else [])
+        extra = sorted(str(k) for k in containers[location] if not any(same(str(k), n) for n in allowed))
+        if extra:
+            res.violation({**base, "kind": "undeclared_parameter_sent", "where": location}, detail | {"extra": extra})
+        for s in security:
+            if any(same(s["name"], n) for n in declared):
+                res.count("security_name_declared_by_operation")
+                continue  # the operation's own declaration of that name is what the value is judged by (above)
+            present = _find(containers[location], s["name"], location)[0]
+            if sec_on and not present:
+                res.violation({**base, "kind": "security_parameter_missing", "where": location}, detail)
+            if not sec_on and present:
+                res.violation({**base, "kind": "security_parameter_sent_when_disabled", "where": location}, detail)
+            if present:
+                res.count("security_values_seen")
+    # body
+    body_set = case.body is not NOT_SET
+    if op["form"]:
+        form = op["form"]
+        if not body_set:
+            if any(p["required"] for p in form["params"]):
+                res.violation({**base, "kind": "required_body_missing"}, detail)
+        elif not isinstance(case.body, dict):
+            res.violation({**base, "kind": "form_body_is_not_an_object"}, detail)
+        else:
+            carries_value = True
+            res.count("form_bodies_judged")
+            if _media_key(case.media_type) not in {_media_key(m) for m in form["media_types"]}:
+                res.violation({**base, "kind": "wrong_media_type"}, detail)
+            names = {p["name"] for p in form["params"]}
+            extra = sorted(str(k) for k in case.body if k not in names)
+            if extra:
+                res.violation({**base, "kind": "undeclared_parameter_sent", "where": "formData"}, detail | {"extra": extra})
+            for p in form["params"]:
+                if p["name"] not in case.body:
+                    if p["required"]:
+                        res.violation({**base, "kind": "required_parameter_missing", "location": "formData"}, detail | {"parameter": p["name"]})
+                    continue
+                value = _plain(case.body[p["name"]]) if p["schema"].get("type") != "file" else case.body[p["name"]]
+                v = verdict(doc, p["schema"], value, spec=spec)
+                if v is False:
+                    v = common.param_verdict(doc, p["schema"], value, "query", spec)  # form fields travel as text as well
+                if v is False:
+                    kws = common.failing_keywords(doc, p["schema"], value, "body", spec)
+                    res.violation({**base, "kind": "positive_value_violates_schema", "location": "formData", "keywords": kws},
+                                  detail | {"parameter": p["name"], "schema": p["schema"]})
+                elif v is None:
+                    res.count("undecided_values")
+    elif op["bodies"] is not None:
+        if not body_set:
+            if op["body_required"]:
+                res.violation({**base, "kind": "required_body_missing"}, detail)
+            else:
+                res.count("optional_body_left_out")
+        else:
+            carries_value = True
+            res.count(f"body_media_{_media_key(case.media_type)}")
+            matching = [b for b in op["bodies"] if _media_key(b["media_type"]) == _media_key(case.media_type)]
+            if not matching:
+                res.violation({**base, "kind": "wrong_media_type"}, detail)
+            else:
+                verdicts = [verdict(doc, b["schema"], case.body, spec=spec) for b in matching]
+                if all(v is False for v in verdicts):
+                    schema = matching[0]["schema"]
+                    kws = common.failing_keywords(doc, schema, case.body, "body", spec)
+                    res.violation({**base, "kind": "positive_value_violates_schema", "location": "body", "keywords": kws,
+                                   **common.pattern_facts(schema), **_readonly_facts(doc, schema, case.body, spec)},
+                                  detail | {"schema": schema})
+                elif not any(v is True for v in verdicts):
+                    res.count("undecided_values")
+    elif body_set:
+        res.violation({**base, "kind": "body_sent_without_definition"}, detail)
+    # string restrictions
+    strings: list[tuple[str, str]] = []
+    for location in common.LOCATIONS:
+        part = containers[location]
+        for key in part:
+            for s in common.all_strings([str(key), part[key]]):
+                strings.append((location + ":" + str(key), s))
+    if body_set:
+        strings.extend(("body", s) for s in common.all_strings(case.body))
+    named = [n for n in _named_values(doc, []) if isinstance(n, str)]
+
+    def restriction_facts(where: str, s: str) -> dict:
+        facts: dict[str, Any] = {}
+        if s in named:
+            facts["value_named_by_schema"] = True  # an enum member / const written in the document itself
+        location, _, name = where.partition(":")
+        if location == "body":
+            declared_schemas = [b["schema"] for b in op["bodies"] or [] if _media_key(b["media_type"]) == _media_key(case.media_type)]
+        else:
+            declared_schemas = [p["schema"] for p in op["params"] if p["in"] == location and _find({name: 1}, p["name"], location)[0]]
+        for sch in declared_schemas:
+            try:
+                resolved = Evaluator(doc, spec=spec).resolve(sch)
+            except Unknown:
+                continue
+            if isinstance(resolved, dict) and "type" not in resolved:
+                facts["schema_without_type"] = True  # the declaration admits values of any JSON type
+        for sec in op["security"]:
+            if sec["in"] == location and (sec["name"] == name or (location == "header" and sec["name"].lower() == name.lower())) \
+                    and not any(p["in"] == location and p["name"].lower() == name.lower() for p in op["params"]):
+                facts["security_kind"] = sec["kind"]
+        return facts
+
+    if not cfg["allow_x00"]:
+        for where, s in strings:
+            if "\x00" in s:
+                res.violation({**base, "kind": "nul_character_with_allow_x00_false", **restriction_facts(where, s)}, detail | {"where": where})
+                break
+    if cfg["codec"]:
+        for where, s in strings:
+            try:
+                s.encode(cfg["codec"])
+            except UnicodeEncodeError:
+                res.violation({**base, "kind": "string_not_encodable_in_codec", "codec": cfg["codec"], **restriction_facts(where, s)},
+                              detail | {"where": where})
+                break
+    # labels
+    for info in case.meta.components.values():
+        if info.mode != GenerationMode.POSITIVE:
+            res.violation({**base, "kind": "component_not_labelled_positive"}, detail)
+    if case.meta.generation.mode != GenerationMode.POSITIVE:
+        res.violation({**base, "kind": "case_not_labelled_positive"}, detail)
+    if carries_value:
+        res.nontriv([digest(doc), entry, item["cfg_how"], summary, cfg])
+    if item["family"] == "objects":
+        res.count("readonly_shapes_judged")
+
 
 def vacuity(total: Result, tier: str) -> list[str]:
     out = []
@@ -370,6 +838,23 @@ def vacuity(total: Result, tier: str) -> list[str]:
         out.append("a single execution outcome class")
     if total.counters.get("trees_exhausted", 0) == 0:
         out.append("no choice tree was exhausted (liveness undecided everywhere)")
+    c = total.counters
+    for family in EXTRA_FAMILIES:
+        if not c.get(f"xcases_{family}"):
+            out.append(f"whole-operation family `{family}` produced no judged case")
+    for entry in ("lookup", "iter", "iter_cfg", "schema", "pathmap", "by_id", "by_ref", "sequence", "engine", "pytest"):
+        if not c.get(f"entry_{entry}"):
+            out.append(f"entry point `{entry}` produced no judged case")
+    for key, what in (("sequence_later_config_cases", "no case was drawn from an operation that had been asked before"),
+                      ("content_json_values_judged", "no `content` parameter value was judged"),
+                      ("form_bodies_judged", "no formData body was judged"),
+                      ("body_media_text/plain", "the second media type of a request body was never chosen"),
+                      ("optional_body_left_out", "an optional body was never left out"),
+                      ("security_name_declared_by_operation", "no security parameter met a declared parameter of the same name"),
+                      ("security_values_seen", "no generated security parameter was seen"),
+                      ("readonly_shapes_judged", "no readOnly shape was judged")):
+        if not c.get(key):
+            out.append(what)
     return out
 
 ENGINES = ["E2", "E1"]
